@@ -12,6 +12,7 @@ package harness
 // direct oracle runs over them, and the trace is validated against the Lean model.
 
 import (
+	"fmt"
 	"math/rand"
 	"time"
 )
@@ -31,6 +32,21 @@ type scriptCtx struct {
 	snapshot   func()
 	count      func(string)
 	checkFresh func() // C15 oracle right after an un-overlapped Clear
+	cliAt      func(ci int) int // yield point client ci is parked at (0: not parked)
+	lastCall   func() *callRec
+	fail       func(prop, what string)
+}
+
+// expectGet = Get(key) by client ci, whose result the scenario can predict exactly
+func (sc *scriptCtx) expectGet(ci int, key, want uint64, found bool, prop, why string) {
+	sc.do(ci, "get", key, 0, 0)
+	c := sc.lastCall()
+	if c == nil || c.kind != "get" || c.endSeq == 0 {
+		return
+	}
+	if c.found != found || (found && c.got != want) {
+		sc.fail(prop, fmt.Sprintf("Get(%d) = (%d,%v), expected (%d,%v): %s", key, c.got, c.found, want, found, why))
+	}
 }
 
 // finish runs client ci until its call has returned; whenever the client cannot move (blocked on
@@ -88,11 +104,11 @@ func (sc *scriptCtx) maybeDrain() {
 	}
 }
 
-var scriptNames = []string{"del_wins", "expired_rewrite", "same_bucket", "sweep_race", "clear_metrics", "overwrite_chain", "ttl_mix", "evict_refill", "benign_fill"}
+var scriptNames = []string{"del_wins", "expired_rewrite", "same_bucket", "sweep_race", "clear_metrics", "overwrite_chain", "ttl_mix", "evict_refill", "benign_fill", "stale_new", "clear_race"}
 
 // scenarios whose client calls are strictly sequential (each returns before the next starts) and
 // contain no Clear: with room to spare the C06 reference-map oracle applies to them
-var scriptSequential = map[string]bool{"del_wins": true, "expired_rewrite": true, "same_bucket": true, "sweep_race": true, "ttl_mix": true}
+var scriptSequential = map[string]bool{"stale_new": true, "del_wins": true, "expired_rewrite": true, "same_bucket": true, "sweep_race": true, "ttl_mix": true}
 
 func cacheScript(sc *scriptCtx) {
 	rng := sc.rng
@@ -281,6 +297,102 @@ func cacheScript(sc *scriptCtx) {
 		sc.tick(7 * time.Second)
 		sc.do(0, "get", k, 0, 0)
 		sc.do(0, "iter", 0, 0, 0)
+	case "stale_new":
+		// C06 / C05 / C02 / C13: two new-item Sets of an absent key are both in the write buffer; the
+		// applier applies only the first; the client then overwrites / deletes / reads the key (an
+		// overwrite is an in-place update, visible at once); only then is the stale second new-item
+		// applied (the policy already accounts the key: it must be rejected, not stored).  With room
+		// to spare the outcome is determined (Lean: c06_refines, second_new_rejected) and checked.
+		sc.drain()
+		ttl0 := []time.Duration{0, 0, 30 * time.Second}[rng.Intn(3)]
+		sc.do(0, "set", k, 1+sc.cost(), ttl0)
+		v1, ok1 := sc.lastCall().val, sc.lastCall().ok
+		sc.do(0, "set", k, 1+sc.cost(), 0)
+		ok2 := sc.lastCall().ok
+		if rng.Intn(4) == 0 {
+			sc.do(0, "set", k2, 1+sc.cost(), 0)
+		}
+		exact := sc.cfg.seqRoom && ok1 && ok2 && sc.appAt() != 40 && sc.appUntil(40) // vpAppItemDone: exactly the first item has been applied
+		if exact {
+			sc.count("script_stale_new_exact")
+		}
+		want, found := v1, true
+		switch rng.Intn(5) {
+		case 0, 1:
+			sc.do(0, "set", k, 1+sc.cost(), 0)
+			want = sc.lastCall().val
+		case 2:
+			sc.do(0, "set", k, 1+sc.cost(), 40*time.Second)
+			want = sc.lastCall().val
+		case 3:
+			sc.do(0, "del", k, 0, 0)
+			found = false
+		default:
+		}
+		if exact {
+			sc.expectGet(0, k, want, found, "C06", "the first of two buffered new-item Sets was applied, then the key was overwritten / deleted / left alone; the stale second new-item is still buffered")
+		} else {
+			sc.do(0, "get", k, 0, 0)
+		}
+		sc.drain()
+		sc.do(0, "wait", 0, 0, 0)
+		if exact {
+			sc.expectGet(0, k, want, found, "C06", "after Wait: the stale second new-item of an accounted key must have been rejected, not stored")
+		} else {
+			sc.do(0, "get", k, 0, 0)
+		}
+		sc.do(0, "getttl", k, 0, 0)
+		sc.do(0, "rem", 0, 0, 0)
+		sc.do(0, "iter", 0, 0, 0)
+	case "clear_race":
+		// C13 / C15 / C02 / C04: Clear is between two shards of the map (policy already reset, some
+		// shards wiped, others not yet) when another client writes / deletes / reads a key of a
+		// shard that is still to come, or of one that is already wiped
+		if sc.nClients < 2 {
+			break
+		}
+		for x := uint64(1); int(x) <= sc.cfg.nKeys; x++ {
+			sc.do(0, "set", x, 1+sc.cost(), []time.Duration{0, 0, 20 * time.Second}[rng.Intn(3)])
+		}
+		sc.do(0, "wait", 0, 0, 0)
+		sc.call(0, "clear", 0, 0, 0)
+		stops := 1 + rng.Intn(3)
+		for guard := 0; guard < 20000 && sc.busy(0); guard++ {
+			if sc.cliAt(0) == 28 { // vpClearShard: a non-empty shard has just been wiped
+				sc.count("script_clear_race_between_shards")
+				x := uint64(1 + rng.Intn(sc.cfg.nKeys))
+				switch rng.Intn(5) {
+				case 0, 1:
+					sc.do(1, "set", x, 1+sc.cost(), 0)
+				case 2:
+					sc.do(1, "del", x, 0, 0)
+				case 3:
+					sc.do(1, "get", x, 0, 0)
+				default:
+					sc.do(1, "set", x, 1+sc.cost(), 5*time.Second)
+				}
+				if rng.Intn(3) != 0 {
+					sc.drain() // the applier is stopped while Clear runs: nothing may be applied here
+				}
+				stops--
+				if stops == 0 {
+					break
+				}
+			}
+			if !sc.stepClient(0) && !sc.stepOther() {
+				break
+			}
+		}
+		sc.finish(0)
+		sc.finish(1)
+		sc.drain()
+		sc.do(0, "wait", 0, 0, 0)
+		for x := uint64(1); int(x) <= sc.cfg.nKeys; x++ {
+			sc.do(1, "get", x, 0, 0)
+		}
+		sc.do(0, "rem", 0, 0, 0)
+		sc.do(0, "iter", 0, 0, 0)
+		sc.snapshot()
 	case "benign_fill":
 		// C03 / C09: a history in which no Set can raise the accounted cost of its key (each key is
 		// written once, or again with a cost that is not larger, strictly one call after the other)
